@@ -1546,6 +1546,8 @@ func AggrFunExpr(query *Query, current Map, expr sqlparser.AggrFunc, opts ...Exp
 		}
 		return result, nil
 	}
+	// the memo is per aggregate call (function and arguments), not per function name
+	name = sqlparser.String(expr)
 	rs, ok := query.singletonExecutions[name]
 	if !ok {
 		slice, err := AggrFuncArgReader(query, map[string]any{"*": query.rows()}, sqlparser.Exprs{Exprs: expr.GetArgs()})
